@@ -331,6 +331,9 @@ def run(ctx):
     # bit (float-exact reduction of the interpolation formula at its end point; rule of C12)
     from . import c12
     ctx.guard(c12.r12_8)
+    # a restart time handed over as a Python float must reach the solver in the state's precision: converted through another
+    # dtype it is moved off the step grid (0.30000000000000004 -> 0.30000001192...), and the second chunk walks a shifted grid
+    ctx.guard(c12.r12_5)
     # hidden state by mutation: a step must not update, in place, tensors it was handed
     from . import c05
     ctx.guard(c05.r05_5_solvers)
